@@ -100,7 +100,7 @@ class DatagramListenerSocketAdapter(transports.AsyncDatagramListener[tuple[Any, 
         assert address is not None, "Address is None"  # nosec assert_used
         if isinstance(data, memoryview) and (data.itemsize != 1 or data.ndim != 1):
             # asyncio transports count the buffered data by items, then by bytes
-            data = data.cast("B")
+            data = data.cast("B") if data.nbytes else b""  # (an empty view with several dimensions cannot be cast)
         self.__transport.sendto(data, address)
         await self.__protocol.writer_drain()
 
